@@ -22,6 +22,8 @@ static const Mode MODES[] = {
     { 2, TLS_AES_128_GCM_SHA256, KK_EC256, KK_EC256, 2, 1, "tls13_cauth_unknown_psk_offered" }, { 2, TLS_AES_128_GCM_SHA256, KK_EC256, 0, 2, 1, "tls13_unknown_psk_offered" },
     { 3, TLS_ECDHE_ECDSA_WITH_AES_128_CBC_SHA, KK_EC256, 0, 0, 0, "dtls10_ecdhe" }, { 4, TLS_RSA_WITH_AES_128_GCM_SHA256, KK_RSA2048, KK_RSA2048, 0, 0, "dtls12_rsa_cauth" }, { 4, TLS_ECDHE_RSA_WITH_AES_128_CBC_SHA256, KK_RSA2048, 0, 1, 0, "dtls12_resumed" },
     { 1, TLS_ECDHE_RSA_WITH_AES_128_GCM_SHA256, KK_RSA2048, 0, 1, 1, "tls12_ecdhe_ticket_resumed" }, { 1, TLS_ECDHE_ECDSA_WITH_AES_128_CBC_SHA, KK_EC256, 0, 1, 0, "tls12_ecdhe_ecdsa_resumed" }, { 0, TLS_ECDHE_RSA_WITH_AES_128_CBC_SHA, KK_RSA2048, 0, 1, 1, "tls11_ecdhe_ticket_resumed" },
+    // OCSP stapling asked for by the client and answered by the server (must-staple build): CertificateStatus becomes a mandatory message
+    { 1, TLS_ECDHE_ECDSA_WITH_AES_128_GCM_SHA256, KK_EC256, 0, 0, 0, "tls12_ecdhe_ocsp_stapled" }, { 1, TLS_ECDH_ECDSA_WITH_AES_128_GCM_SHA256, KK_EC256, 0, 0, 0, "tls12_ecdh_ocsp_stapled" }, { 0, TLS_ECDHE_ECDSA_WITH_AES_128_CBC_SHA, KK_EC256, 0, 0, 0, "tls11_ecdhe_ocsp_stapled" },
 };
 static const int NMODES = sizeof MODES / sizeof MODES[0];
 
@@ -29,7 +31,7 @@ static const int NMODES = sizeof MODES / sizeof MODES[0];
 struct Skip { int byz_is_server; int type; const char *name; int type2; };
 static const Skip SKIPS[] = { { 1, 11, "certificate" }, { 1, 12, "server_key_exchange" }, { 1, 254, "change_cipher_spec" }, { 1, 15, "certificate_verify" }, { 1, 8, "encrypted_extensions" },
                               { 0, 15, "certificate_verify" }, { 0, 254, "change_cipher_spec" }, { 0, 11, "certificate" },
-                              { 0, 11, "certificate_and_certificate_verify", 15 }, { 1, 11, "certificate_and_certificate_verify", 15 }, { 1, 14, "server_hello_done" } };
+                              { 0, 11, "certificate_and_certificate_verify", 15 }, { 1, 11, "certificate_and_certificate_verify", 15 }, { 1, 14, "server_hello_done" }, { 1, 22, "certificate_status" } };
 static const int NSKIPS = sizeof SKIPS / sizeof SKIPS[0];
 
 // messages a byzantine TLS <= 1.2 peer may ADD (accounted in its own transcript too): before which of its own messages, and what
@@ -95,6 +97,7 @@ static RunResult c06_exec(const Plan &p) {
         if (M.kind == KK_PSK_ONLY) { pc.server_identity = KK_NONE; pc.psk = true; } else { pc.server_identity = M.kind; }
         if (M.cauth) { pc.client_auth = true; pc.client_identity = M.cauth; }
         pc.tickets = M.tickets != 0;
+        if (strstr(M.name, "ocsp_stapled")) { pc.ocsp = 1; }
         bool dtls = pc.dtls();
         TlsWorld w; w.record_granular = true;   // every record in a read of its own: a repeated or premature message meets the state machine, not the end of a buffer
         if (!w.setup(pc)) { res.harness_error = true; res.detail = "setup rc=" + std::to_string(w.setup_rc); }
